@@ -516,6 +516,78 @@ func c12Scenario(c *Ctx, idx int, r *Rng) (mline, mimpl, mcase string) {
 	return
 }
 
+// c12Fixup: `migrate import --fixup` converts, in every commit, the files that the commit's own
+// .gitattributes declares as LFS but that are stored as plain blobs.  The history changes its
+// attributes half-way: the decision for an unchanged (path, blob) differs between commits (D12).
+func c12Fixup(c *Ctx, idx int, r *Rng) {
+	base := filepath.Join(c.Work, fmt.Sprintf("c12f-%d", idx))
+	defer os.RemoveAll(base)
+	os.MkdirAll(base, 0o755)
+	w, err := newScenRepo(c, filepath.Join(base, "w"), nil)
+	if err != nil {
+		return
+	}
+	// no LFS filter is configured globally here: `git add` stores raw blobs whatever .gitattributes says
+	for _, k := range []string{"filter.lfs.clean", "filter.lfs.smudge", "filter.lfs.process", "filter.lfs.required"} {
+		w.git("config", "--local", "--unset", k)
+	}
+	attrFirst := r.Bool()
+	if attrFirst {
+		w.write(".gitattributes", []byte("*.dat filter=lfs diff=lfs merge=lfs -text\n"))
+	}
+	w.write("x.dat", r.Bytes(2000))
+	w.write("keep.txt", []byte("plain\n"))
+	w.git("add", "-A")
+	w.git("commit", "-qm", "c1")
+	if !attrFirst {
+		w.write(".gitattributes", []byte("*.dat filter=lfs diff=lfs merge=lfs -text\n"))
+	} else {
+		w.git("rm", "-q", ".gitattributes")
+	}
+	w.write("keep.txt", []byte("plain 2\n"))
+	w.git("add", "-A")
+	w.git("commit", "-qm", "c2 (attributes change, x.dat unchanged)")
+	oldH, oldOrder := c12ReadHistory(w)
+	out, code := w.runLfs("migrate", "import", "--fixup", "--everything", "--yes")
+	enc := fmt.Sprintf("C12 fixup seed=%d idx=%d attributes-in-first-commit=%v", c.Seed, idx, attrFirst)
+	c.R.Eval(enc, true)
+	c.R.Count("import.fixup")
+	if code != 0 {
+		c.R.Add(Finding{Kind: "oracle", What: "`git lfs migrate import --fixup` failed", Case: enc, Impl: clip(out, 300)})
+		return
+	}
+	newH, newOrder := c12ReadHistory(w)
+	if len(newOrder) != len(oldOrder) {
+		c.R.Add(Finding{Kind: "oracle", What: "migrate import --fixup changed the number of commits", Case: enc})
+		return
+	}
+	cache := map[string][]byte{}
+	for i, nid := range newOrder {
+		tracked := false
+		for _, e := range newH[nid].tree {
+			if e.path == ".gitattributes" {
+				b, _, _ := c12Resolve(w, cache, e.blob)
+				tracked = strings.Contains(string(b), "*.dat filter=lfs")
+			}
+		}
+		for _, e := range newH[nid].tree {
+			if e.path != "x.dat" {
+				continue
+			}
+			_, isPtr, _ := c12Resolve(w, cache, e.blob)
+			if tracked && !isPtr {
+				c.R.Add(Finding{Kind: "oracle", What: "after migrate import --fixup a path that the commit's .gitattributes declares as LFS is still a plain blob", Sig: "D12",
+					Case: enc, Impl: fmt.Sprintf("commit %d of %d: x.dat", i+1, len(newOrder))})
+			}
+			if !tracked && isPtr {
+				c.R.Add(Finding{Kind: "oracle", What: "migrate import --fixup converted a path in a commit whose .gitattributes does not declare it as LFS", Sig: "D12",
+					Case: enc, Impl: fmt.Sprintf("commit %d of %d: x.dat", i+1, len(newOrder))})
+			}
+		}
+	}
+	_ = oldH
+}
+
 func c12(c *Ctx) {
 	r := NewRng(c.Seed ^ 0xC12)
 	c.R.Rule = "cases = histories of 2-12 commits (edits, mode-only changes, renames, removals, real merges, lightweight and annotated tags, symlinks, executables, empty files, nested .gitattributes, a file already tracked by LFS, varying authors/dates/messages) x selections (--include/--exclude patterns, --above, --everything, --no-rewrite); old and new histories compared through plumbing (graph shape, headers, per-path mode, content after resolving pointers, representation changed exactly on selected convertible paths, refs and annotated tags at the images), export after import compared blob for blob, the rewritten trees compared with the model; non-trivial = every scenario; distinct = different (seed, index)"
@@ -536,6 +608,10 @@ func c12(c *Ctx) {
 					c.R.Add(Finding{Kind: "diff", What: fmt.Sprintf("scenario harness problem: %v", x), Broken: "corr.C12.scenario"})
 				}
 			}()
+			if i%15 == 14 {
+				c12Fixup(c, i, rs)
+				return
+			}
 			l, m, cs := c12Scenario(c, i, rs)
 			if l != "" {
 				mu.Lock()
